@@ -2,6 +2,7 @@ package rules
 
 import (
 	"fmt"
+	"go/constant"
 	"go/token"
 	"go/types"
 	"sort"
@@ -188,58 +189,93 @@ func c01R1(c *eng.Ctx) {
 		l := over[0]
 		c.Check("R1", fn, "single loop over the list", fn.Pos(), len(loops) == 1, "exactly one loop, bounded by len(list): every element is considered")
 		c.Check("R1", fn, "forward iteration from the first element", l.Header.Instrs[len(l.Header.Instrs)-1].Pos(), l.Forward, "every element is visited, in list order: the index starts at the first element and advances by one")
-		// returns
-		eng.Instrs(fn, func(ins ssa.Instruction) {
-			r, ok := ins.(*ssa.Return)
-			if !ok || len(r.Results) != 1 {
-				return
+		// results: every value a return may yield, with the CFG edges through which it was
+		// selected (`return x` directly, or `found = x; break … return found`: a phi)
+		for _, r := range c17Returns(fn) {
+			res := eng.ReturnResults(r)
+			if len(res) != 1 {
+				continue
 			}
-			res := r.Results[0]
-			negative := eng.IsNilConst(res) || eng.IsBoolConst(res, false)
-			if negative {
-				// the negative answer is only given after the loop is exhausted
-				afterLoop := eng.GuardedBy(r, func(rel eng.Rel) bool {
-					return rel.X == l.Idx && rel.Op == token.GEQ
+			for _, lf := range c01ResultLeaves(res[0]) {
+				lf := lf
+				// holds: the relation is known where the return executes or on one of the edges
+				// that selected this value
+				holds := func(pr func(eng.Rel) bool) bool {
+					if eng.GuardedBy(r, pr) {
+						return true
+					}
+					for _, e := range lf.edges {
+						if c01EdgeHolds(e, pr) {
+							return true
+						}
+					}
+					return false
+				}
+				negative := eng.IsNilConst(lf.v) || eng.IsBoolConst(lf.v, false)
+				if _, isConst := lf.v.(*ssa.Const); !isConst && !first {
+					// a boolean that is known to be false on the way (`if found = inner(…); found {break}`
+					// carries the false result of the last element out of the loop)
+					negative = holds(func(rel eng.Rel) bool {
+						return c01BoolFact(rel, func(v ssa.Value) bool { return v == lf.v }, false)
+					})
+				}
+				if negative {
+					// the negative answer is only given after the loop is exhausted
+					afterLoop := holds(func(rel eng.Rel) bool {
+						rel = eng.NormRel(rel)
+						return rel.X == l.Idx && rel.Op == token.GEQ
+					})
+					c.Check("R1", fn, "negative answer only after the whole list", r.Pos(), afterLoop, "nil/false is returned only on the loop-exhausted edge")
+					continue
+				}
+				// positive answer: guarded by inner(attrs, elem) == true
+				var elemS, elemI ssa.Value
+				var innerCall *ssa.Call
+				guarded := holds(func(rel eng.Rel) bool {
+					return c01BoolFact(rel, func(v ssa.Value) bool {
+						cc, _ := eng.CallResultOf(v)
+						if cc == nil || !eng.IsCall(cc, inner) {
+							return false
+						}
+						a := eng.Args(cc)
+						if len(a) != 2 || a[0] != ssa.Value(fn.Params[0]) {
+							return false
+						}
+						s, i, ok := elementRef(a[1])
+						if !ok || !sameSlice(s, l.S) || i != l.Idx {
+							return false
+						}
+						elemS, elemI, innerCall = s, i, cc
+						return true
+					}, true)
 				})
-				c.Check("R1", fn, "negative answer only after the whole list", r.Pos(), afterLoop, "nil/false is returned only on the loop-exhausted edge")
-				return
-			}
-			// positive answer: guarded by inner(attrs, elem) == true
-			var elemS, elemI ssa.Value
-			guarded := eng.GuardedByBool(r, func(v ssa.Value) bool {
-				cc, _ := eng.CallResultOf(v)
-				if cc == nil || !eng.IsCall(cc, inner) {
-					return false
-				}
-				a := eng.Args(cc)
-				if len(a) != 2 || a[0] != ssa.Value(fn.Params[0]) {
-					return false
-				}
-				s, i, ok := elementRef(a[1])
-				if !ok || !sameSlice(s, l.S) || i != l.Idx {
-					return false
-				}
-				elemS, elemI = s, i
-				return true
-			}, true)
-			ok2 := guarded
-			detail := "a positive answer is control-dependent on the inner match of the current element with the request attributes"
-			if guarded && first {
-				s, i, isRef := elementRef(res)
-				if !isRef || !sameSlice(s, elemS) || i != elemI {
+				ok2 := guarded
+				detail := "a positive answer is control-dependent on the inner match of the current element with the request attributes"
+				if guarded && first {
+					s, i, isRef := elementRef(lf.v)
+					if !isRef || !sameSlice(s, elemS) || i != elemI {
+						ok2 = false
+						detail = "the returned policy is not the element that matched"
+					}
+				} else if guarded && !eng.IsBoolConst(lf.v, true) && lf.v != ssa.Value(innerCall) {
 					ok2 = false
-					detail = "the returned policy is not the element that matched"
 				}
-			} else if guarded && !eng.IsBoolConst(res, true) {
-				ok2 = false
+				c.Check("R1", fn, "positive answer ⇔ current element matches", r.Pos(), ok2, detail)
+				// no continuation after a match: from the match edge the loop header is not reachable
+				if guarded {
+					toHeader := func(b *ssa.BasicBlock) bool {
+						return eng.ReachFromBlock(b, eng.PathQuery{Target: func(i ssa.Instruction) bool { return i.Block() == l.Header }}) != nil
+					}
+					back := toHeader(r.Block())
+					for _, e := range lf.edges {
+						if toHeader(e.to) {
+							back = true
+						}
+					}
+					c.Check("R1", fn, "stop at the first match", r.Pos(), !back, "")
+				}
 			}
-			c.Check("R1", fn, "positive answer ⇔ current element matches", r.Pos(), ok2, detail)
-			// no continuation after a match: from the match edge the loop header is not reachable
-			if guarded {
-				back := eng.ReachFromBlock(r.Block(), eng.PathQuery{Target: func(i ssa.Instruction) bool { return i.Block() == l.Header }})
-				c.Check("R1", fn, "stop at the first match", r.Pos(), back == nil, "")
-			}
-		})
+		}
 		// the only ways out of the loop: header exit, or a return
 		_ = nLoops
 	}
@@ -247,6 +283,67 @@ func c01R1(c *eng.Ctx) {
 	checkFold(pm, func(v ssa.Value) bool {
 		return eng.FieldLoadOf(v, pkgV1alpha1+".DispatchPolicy", "Rules")
 	}, pkgClusters+".RuleMatches", false)
+}
+
+// c01Edge is a CFG edge.
+type c01Edge struct{ from, to *ssa.BasicBlock }
+
+// c01Leaf is a non-phi value a result may take, with the phi edges it travelled through.
+type c01Leaf struct {
+	v     ssa.Value
+	edges []c01Edge
+	phis  []*ssa.Phi // the phis the value travelled through (outermost first)
+}
+
+// c01ResultLeaves expands v through (nested) phis; phi cycles (loop-carried values) are cut.
+func c01ResultLeaves(v ssa.Value) []c01Leaf {
+	var out []c01Leaf
+	seen := map[*ssa.Phi]bool{}
+	var walk func(v ssa.Value, es []c01Edge, ps []*ssa.Phi)
+	walk = func(v ssa.Value, es []c01Edge, ps []*ssa.Phi) {
+		phi, ok := v.(*ssa.Phi)
+		if !ok {
+			out = append(out, c01Leaf{v, es, ps})
+			return
+		}
+		if seen[phi] {
+			return
+		}
+		seen[phi] = true
+		for i, e := range phi.Edges {
+			if i >= len(phi.Block().Preds) {
+				continue
+			}
+			walk(e, append(append([]c01Edge{}, es...), c01Edge{phi.Block().Preds[i], phi.Block()}), append(append([]*ssa.Phi{}, ps...), phi))
+		}
+		delete(seen, phi)
+	}
+	walk(v, nil, nil)
+	return out
+}
+
+// c01EdgeHolds: some relation known when control flows along e satisfies pr — a guard of the
+// source block (deep facts, lifted through helpers) or the branch taken out of it.
+func c01EdgeHolds(e c01Edge, pr func(eng.Rel) bool) bool {
+	if len(e.from.Instrs) == 0 {
+		return false
+	}
+	last := e.from.Instrs[len(e.from.Instrs)-1]
+	if eng.GuardedBy(last, pr) {
+		return true
+	}
+	if iff, ok := last.(*ssa.If); ok && len(e.from.Succs) == 2 && e.from.Succs[0] != e.from.Succs[1] {
+		branch := e.from.Succs[0] == e.to
+		if pr(eng.RelOf(iff.Cond, branch)) {
+			return true
+		}
+		for _, r := range eng.ImpliedRels(iff.Cond, branch) {
+			if pr(r) {
+				return true
+			}
+		}
+	}
+	return false
 }
 
 func hasPhi(b *ssa.BasicBlock) bool {
@@ -269,6 +366,13 @@ func blockIsHeader(b *ssa.BasicBlock, loops []rangeLoop) bool {
 
 // ---- R2 -------------------------------------------------------------------------------
 
+// c01SamePkg accepts the functions of fn's package (the helpers a body may have been spread over).
+func c01SamePkg(fn *ssa.Function) func(*ssa.Function) bool {
+	return func(g *ssa.Function) bool {
+		return g != nil && g.Blocks != nil && eng.Outermost(g).Pkg != nil && eng.Outermost(g).Pkg == eng.Outermost(fn).Pkg
+	}
+}
+
 func c01R2(c *eng.Ctx) {
 	rm := c.MustFunc(pkgClusters, "RuleMatches")
 	if rm == nil {
@@ -284,8 +388,11 @@ func c01R2(c *eng.Ctx) {
 		return "", false
 	}
 	attrs := "(k8s.io/apiserver/pkg/authorization/authorizer.Attributes)."
+	samePkg := c01SamePkg(rm)
+	// the conjunction may be spread over same-package helpers (requesterMatches, resourceRuleMatches,
+	// a helper computing resource/subresource): they are interpreted as part of RuleMatches
 	run := func(pin map[string]bool, isRes *bool) ([]eng.PathResult, error) {
-		in := &eng.Interp{W: c.W, Depth: 0, PinCall: func(cc *ssa.Call, idx int, st *eng.State) (eng.AV, bool) {
+		in := &eng.Interp{W: c.W, Depth: eng.LiftDepth, MaxPaths: 1 << 14, FollowCall: samePkg, PinCall: func(cc *ssa.Call, idx int, st *eng.State) (eng.AV, bool) {
 			if n, ok := isMatcher(cc); ok {
 				if v, pinned := pin[n]; pinned {
 					return eng.AVBool(v), true
@@ -372,23 +479,39 @@ func c01R2(c *eng.Ctx) {
 		"Verbs": "VerbMatches", "APIGroups": "APIGroupMatches", "Resources": "ResourceMatches", "ResourceNames": "ResourceNameMatches",
 		"Users": "UserOrServiceAccountMatches", "ServiceAccounts": "UserOrServiceAccountMatches", "UserGroups": "UserGroupMatches", "NonResourceURLs": "NonResourceURLMatches",
 	}
+	// the matcher calls of RuleMatches, each in the calling context it executes in: values of a
+	// helper are related to RuleMatches' own parameters through the arguments of the chain
+	type mcall struct {
+		call *ssa.Call
+		name string
+		ctx  *eng.CallCtx
+	}
+	var mcalls []mcall
+	for _, ctx := range eng.DownCtxs(rm, samePkg, eng.LiftDepth) {
+		for _, ci := range eng.Calls(ctx.Fn) {
+			if cc, ok := ci.(*ssa.Call); ok {
+				if n, ok := isMatcher(cc); ok {
+					mcalls = append(mcalls, mcall{cc, n, ctx})
+				}
+			}
+		}
+	}
+	// ruleField: the field of RuleMatches' rule parameter that a is a read of ("" if none)
+	ruleField := func(a ssa.Value, ctx *eng.CallCtx) string {
+		root, path, rctx := eng.ResolvePathIn(a, ctx)
+		if root == ssa.Value(rm.Params[1]) && rctx != nil && rctx.Fn == rm && len(path) == 1 {
+			return path[0]
+		}
+		return ""
+	}
 	consumed := map[string]string{}
-	for _, ci := range eng.Calls(rm) {
-		cc, ok := ci.(*ssa.Call)
-		if !ok {
-			continue
-		}
-		n, ok := isMatcher(cc)
-		if !ok {
-			continue
-		}
-		for _, a := range eng.Args(cc) {
-			for i := 0; i < st.NumFields(); i++ {
-				if eng.FieldLoadOf(a, pkgV1alpha1+".DispatchPolicyRule", st.Field(i).Name()) {
-					root, _ := eng.AccessPath(a)
-					if root == ssa.Value(rm.Params[1]) {
-						consumed[st.Field(i).Name()] = n
-					}
+	for _, m := range mcalls {
+		for _, a := range eng.Args(m.call) {
+			if f := ruleField(a, m.ctx); f != "" {
+				if prev, dup := consumed[f]; dup && prev != m.name {
+					consumed[f] = prev + "+" + m.name
+				} else {
+					consumed[f] = m.name
 				}
 			}
 		}
@@ -408,31 +531,33 @@ func c01R2(c *eng.Ctx) {
 		"UserGroupMatches": {"GetGroups"}, "UserOrServiceAccountMatches": {"GetName"}, "ResourceMatches": {"GetResource", "GetSubresource"},
 	}
 	sl := c.Slicer().WithArgs()
-	for _, ci := range eng.Calls(rm) {
-		cc, ok := ci.(*ssa.Call)
-		if !ok {
-			continue
-		}
-		n, ok := isMatcher(cc)
-		if !ok {
-			continue
-		}
-		args := eng.Args(cc)
+	isGetUser := func(v ssa.Value) bool {
+		x, _ := eng.CallResultOf(v)
+		return x != nil && eng.IsCall(x, attrs+"GetUser")
+	}
+	for _, m := range mcalls {
+		n, cc := m.name, m.call
 		var reqArgs []ssa.Value
-		for _, a := range args {
-			root, _ := eng.AccessPath(a)
-			if root != ssa.Value(rm.Params[1]) {
+		for _, a := range eng.Args(cc) {
+			if ruleField(a, m.ctx) == "" {
 				reqArgs = append(reqArgs, a)
 			}
 		}
 		got := map[string]bool{}
+		viaUser := false
 		for _, a := range reqArgs {
-			for _, leaf := range sl.Leaves(a, func(v ssa.Value) bool {
+			for _, leaf := range eng.LeavesIn(sl, a, m.ctx, func(v ssa.Value) bool {
 				x, _ := eng.CallResultOf(v)
 				return x != nil && x.Call.IsInvoke() && x.Call.Method.Name() != "GetUser"
 			}) {
-				if x, _ := eng.CallResultOf(leaf); x != nil && x.Call.IsInvoke() {
+				if x, _ := eng.CallResultOf(leaf.V); x != nil && x.Call.IsInvoke() {
 					got[x.Call.Method.Name()] = true
+				}
+			}
+			// through GetUser(): some getter the value derives from is GetUser of the attributes
+			for _, leaf := range eng.LeavesIn(sl, a, m.ctx, isGetUser) {
+				if isGetUser(leaf.V) {
+					viaUser = true
 				}
 			}
 		}
@@ -449,16 +574,6 @@ func c01R2(c *eng.Ctx) {
 		sort.Strings(gl)
 		c.Check("R2", rm, n+" request side", cc.Pos(), ok2, fmt.Sprintf("request value must come from %v (got %v)", reqOf[n], gl))
 		if n == "UserOrServiceAccountMatches" || n == "UserGroupMatches" {
-			// through GetUser()
-			viaUser := false
-			for _, a := range reqArgs {
-				if sl.DerivesFrom(a, func(v ssa.Value) bool {
-					x, _ := eng.CallResultOf(v)
-					return x != nil && eng.IsCall(x, attrs+"GetUser")
-				}) {
-					viaUser = true
-				}
-			}
 			c.Check("R2", rm, n+" reads the request user", cc.Pos(), viaUser, "")
 		}
 	}
@@ -487,6 +602,19 @@ func c01Reach(c *eng.Ctx, roots ...*ssa.Function) []*ssa.Function {
 		for _, ci := range eng.Calls(f) {
 			visit(eng.CalleeFn(ci))
 		}
+		// functions used as values (a named function or a method value handed over as the
+		// per-entry match function) may be called by whoever receives them
+		eng.Instrs(f, func(ins ssa.Instruction) {
+			for _, op := range ins.Operands(nil) {
+				if *op == nil {
+					continue
+				}
+				switch (*op).(type) {
+				case *ssa.Function, *ssa.MakeClosure:
+					visit(c.W.FuncOfValue(*op))
+				}
+			}
+		})
 	}
 	for _, r := range roots {
 		visit(r)
@@ -558,29 +686,51 @@ func c01R3(c *eng.Ctx) {
 	if len(reach) < 8 {
 		c.Fail("R3", mp, "reachable matcher functions", mp.Pos(), fmt.Sprintf("only %d functions reachable from MatchPolicies; expected the fold, the rule matcher and the per-field matchers", len(reach)))
 	}
-	// one atomic load in MatchAttributes
+	// one atomic load in MatchAttributes (the call may sit in a same-package helper of it: the
+	// list and the attributes are then related to MatchAttributes through the calling context)
 	if ma := c.MustMethod(pkgClusters, "ClusterInfo", "MatchAttributes"); ma != nil {
-		calls := eng.CallsTo(ma, pkgClusters+".MatchPolicies")
-		if len(calls) != 1 {
-			c.Fail("R3", ma, "policy list from one atomic load", ma.Pos(), fmt.Sprintf("expected one MatchPolicies call, found %d", len(calls)))
+		type site struct {
+			call ssa.CallInstruction
+			ctx  *eng.CallCtx
+		}
+		var sites []site
+		distinct := map[ssa.CallInstruction]bool{}
+		for _, ctx := range eng.DownCtxs(ma, c01SamePkg(ma), eng.LiftDepth) {
+			for _, ci := range eng.CallsTo(ctx.Fn, pkgClusters+".MatchPolicies") {
+				sites = append(sites, site{ci, ctx})
+				distinct[ci] = true
+			}
+		}
+		if len(distinct) != 1 {
+			c.Fail("R3", ma, "policy list from one atomic load", ma.Pos(), fmt.Sprintf("expected one MatchPolicies call, found %d", len(distinct)))
 		} else {
-			a := eng.Args(calls[0])
-			n := 0
-			sl := &eng.Slicer{W: c.W, Depth: 3}
-			for _, leaf := range sl.Leaves(a[1], func(v ssa.Value) bool {
-				cc, _ := eng.CallResultOf(v)
-				return cc != nil && eng.IsCall(cc, "(*sync/atomic.Value).Load")
-			}) {
-				if cc, _ := eng.CallResultOf(leaf); cc != nil && eng.IsCall(cc, "(*sync/atomic.Value).Load") && eng.FieldAddrOf(eng.Receiver(cc), tClusterInfo, "currentDispatchPolicies") {
-					n++
-				} else if !eng.IsNilConst(leaf) {
-					if _, isConst := leaf.(*ssa.Const); !isConst {
-						n += 100
+			okLoad, okAttrs := true, true
+			for _, s := range sites {
+				a := eng.Args(s.call)
+				n := 0
+				sl := &eng.Slicer{W: c.W, Depth: 3}
+				for _, lf := range eng.LeavesIn(sl, a[1], s.ctx, func(v ssa.Value) bool {
+					cc, _ := eng.CallResultOf(v)
+					return cc != nil && eng.IsCall(cc, "(*sync/atomic.Value).Load")
+				}) {
+					leaf := lf.V
+					if cc, _ := eng.CallResultOf(leaf); cc != nil && eng.IsCall(cc, "(*sync/atomic.Value).Load") && eng.FieldAddrOf(eng.Receiver(cc), tClusterInfo, "currentDispatchPolicies") {
+						n++
+					} else if !eng.IsNilConst(leaf) {
+						if _, isConst := leaf.(*ssa.Const); !isConst {
+							n += 100
+						}
 					}
 				}
+				if n != 1 {
+					okLoad = false
+				}
+				if r := eng.ResolveIn(a[0], s.ctx); r.V != ssa.Value(ma.Params[1]) {
+					okAttrs = false
+				}
 			}
-			c.Check("R3", ma, "policy list from one atomic load", calls[0].Pos(), n == 1, "the list matched against is the value of one atomic load of currentDispatchPolicies (a consistent snapshot)")
-			c.Check("R3", ma, "attributes passed unchanged", calls[0].Pos(), a[0] == ssa.Value(ma.Params[1]), "")
+			c.Check("R3", ma, "policy list from one atomic load", sites[0].call.Pos(), okLoad, "the list matched against is the value of one atomic load of currentDispatchPolicies (a consistent snapshot)")
+			c.Check("R3", ma, "attributes passed unchanged", sites[0].call.Pos(), okAttrs, "")
 		}
 	}
 }
@@ -807,9 +957,17 @@ func c01Contrib(r ssa.Instruction) []eng.Guard {
 type c01Fold struct {
 	fn     *ssa.Function
 	ret    *ssa.Return
-	guards []eng.Guard // guards evaluated inside the loop
-	loop   *rangeLoop  // the innermost recognised loop over a collection, if any
+	at     ssa.Instruction // the point inside the loop at which the positive answer is decided (ret for `return true`)
+	guards []eng.Guard     // guards evaluated inside the loop
+	conds  []c01Cond       // further conditions the answer is computed from (flag form: `found = cond(x)`)
+	loop   *rangeLoop      // the innermost recognised loop over a collection, if any
 	loops  []rangeLoop
+}
+
+// c01Cond is a boolean value with the truth value under which the fold answers true.
+type c01Cond struct {
+	v      ssa.Value
+	branch bool
 }
 
 func c01Folds(fn *ssa.Function) []c01Fold {
@@ -862,9 +1020,94 @@ func c01Folds(fn *ssa.Function) []c01Fold {
 		if len(gs) == 0 {
 			return
 		}
-		f := c01Fold{fn: fn, ret: r, guards: gs, loops: loops}
+		f := c01Fold{fn: fn, ret: r, at: r, guards: gs, loops: loops}
 		out = append(out, f)
 	})
+	// the single-exit form: `found := false; for … && !found { found = cond(x) }; return found` or
+	// `if cond(x) { found = true; break }` — the value returned is selected by phis; a leaf that
+	// is decided inside a loop is a positive answer given from inside the loop
+	seenAt := map[ssa.Instruction]bool{}
+	for _, r := range c17Returns(fn) {
+		res := eng.ReturnResults(r)
+		if len(res) != 1 {
+			continue
+		}
+		if _, isPhi := res[0].(*ssa.Phi); !isPhi {
+			continue
+		}
+		for _, lf := range c01ResultLeaves(res[0]) {
+			if len(lf.edges) == 0 {
+				continue
+			}
+			e := lf.edges[len(lf.edges)-1] // the edge that selected the leaf
+			// inside a loop, or the block that leaves it (`found = true; break`)
+			inside := eng.InLoop(e.from)
+			if !inside && len(e.from.Preds) > 0 {
+				inside = true
+				for _, p := range e.from.Preds {
+					if !eng.InLoop(p) {
+						inside = false
+					}
+				}
+			}
+			if !inside || len(e.from.Instrs) == 0 {
+				continue
+			}
+			// a test of the accumulator itself (`for … && !found`) is loop control, not a condition
+			// of the answer
+			isAccu := func(cond ssa.Value) bool {
+				for {
+					u, isNot := cond.(*ssa.UnOp)
+					if !isNot || u.Op != token.NOT {
+						break
+					}
+					cond = u.X
+				}
+				for _, ph := range lf.phis {
+					if cond == ssa.Value(ph) {
+						return true
+					}
+				}
+				return false
+			}
+			var at ssa.Instruction
+			var conds []c01Cond
+			switch {
+			case eng.IsBoolConst(lf.v, true):
+				at = e.from.Instrs[len(e.from.Instrs)-1]
+			default:
+				if _, isConst := lf.v.(*ssa.Const); isConst {
+					continue
+				}
+				ins, isIns := lf.v.(ssa.Instruction)
+				if !isIns || ins.Block() == nil || !eng.InLoop(ins.Block()) {
+					continue
+				}
+				if b, isB := lf.v.Type().Underlying().(*types.Basic); !isB || b.Kind() != types.Bool {
+					continue
+				}
+				at = ins
+				conds = append(conds, c01Cond{lf.v, true})
+			}
+			if seenAt[at] {
+				continue
+			}
+			seenAt[at] = true
+			var gs []eng.Guard
+			for _, g := range c01Contrib(at) {
+				if eng.InLoop(g.If.Block()) && !blockIsHeader(g.If.Block(), loops) && !isAccu(g.If.Cond) {
+					gs = append(gs, g)
+				}
+			}
+			if iff, isIf := at.(*ssa.If); isIf && len(e.from.Succs) == 2 && e.from.Succs[0] != e.from.Succs[1] && !blockIsHeader(e.from, loops) {
+				gs = append(gs, eng.Guard{If: iff, Branch: e.from.Succs[0] == e.to})
+			}
+			if len(gs)+len(conds) == 0 {
+				continue
+			}
+			out = append(out, c01Fold{fn: fn, ret: r, at: at, guards: gs, conds: conds, loops: loops})
+		}
+	}
 	return out
 }
 
@@ -883,7 +1126,8 @@ func c01R4(c *eng.Ctx) {
 		}
 	}
 	sl := &eng.Slicer{W: c.W, Depth: 3}
-	tainted := func(v ssa.Value) bool { return sl.DerivesFrom(v, c01IsStrip) }
+	tw := &c01Taint{w: c.W, sl: sl, seen: map[c01TaintKey]bool{}}
+	tainted := func(v ssa.Value, at ssa.Instruction) bool { return tw.tainted(v, at, 12) }
 	nFolds := 0
 	foldOverParam := map[*ssa.Function][]int{} // function -> parameter indexes folded over
 	for _, f := range reach {
@@ -903,6 +1147,9 @@ func c01R4(c *eng.Ctx) {
 			for _, g := range fold.guards {
 				c01Atoms(c, g.If.Cond, g.Branch, 3, closures, map[ssa.Value]bool{}, &atoms)
 			}
+			for _, cd := range fold.conds {
+				c01Atoms(c, cd.v, cd.branch, 3, closures, map[ssa.Value]bool{}, &atoms)
+			}
 			c01FlagFacts = nil
 			var neg []string
 			for _, a := range atoms {
@@ -916,7 +1163,7 @@ func c01R4(c *eng.Ctx) {
 				"an ∃-fold returns true as soon as one entry satisfies its guard; with a negated atom (entry != request) a list of two inverted entries matches everything: "+strings.Join(dedup(neg), ", "))
 			// (ii) collection taint
 			for _, l := range fold.loops {
-				inLoop := eng.ReachFromBlock(l.Body, eng.PathQuery{Target: func(i ssa.Instruction) bool { return i == ssa.Instruction(fold.ret) }, Avoid: func(i ssa.Instruction) bool { return i.Block() == l.Header }}) != nil
+				inLoop := eng.ReachFromBlock(l.Body, eng.PathQuery{Target: func(i ssa.Instruction) bool { return i == fold.at }, Avoid: func(i ssa.Instruction) bool { return i.Block() == l.Header }}) != nil
 				if !inLoop {
 					continue
 				}
@@ -931,7 +1178,7 @@ func c01R4(c *eng.Ctx) {
 				if !isEntryCollection(l.S) {
 					continue
 				}
-				t := tainted(l.S)
+				t := tainted(l.S, l.Header.Instrs[len(l.Header.Instrs)-1])
 				c.Check("R4", f, construct+" not over inverted entries", fold.ret.Pos(), !t || flagGuard,
 					"the loop ranges over entries that may be '-'-stripped (inverted) and returns true from inside: inverted entries must be combined by ∀ (¬∃ of their positive form)")
 			}
@@ -958,7 +1205,7 @@ func c01R4(c *eng.Ctx) {
 				}
 				anyTainted := false
 				for _, i := range idxs {
-					if i < len(cc.Call.Args) && tainted(cc.Call.Args[i]) {
+					if i < len(cc.Call.Args) && tainted(cc.Call.Args[i], cc) {
 						anyTainted = true
 					}
 				}
@@ -986,6 +1233,216 @@ func c01R4(c *eng.Ctx) {
 	}
 }
 
+// c01Taint decides whether a list may hold '-'-stripped (inverted) entries. It is a backward
+// walk like Slicer.DerivesFrom(v, c01IsStrip), made sensitive to the one correlation that
+// matters here: a per-entry helper that reports the entry's value together with its polarity
+// (`value, isInverted := splitRule(r)` returning (r[1:], true) / (r, false)). Where the value is
+// appended under a known truth value of the flag, only the returns of the helper that can yield
+// that flag are followed, so the positive list is not mistaken for a stripped one. Parameters of
+// helpers whose callers are all known are followed into the call sites.
+type c01Taint struct {
+	w    *eng.World
+	sl   *eng.Slicer
+	seen map[c01TaintKey]bool
+}
+
+type c01TaintKey struct {
+	v  ssa.Value
+	at ssa.Instruction
+	fr *c01TaintFrame
+}
+
+// c01TaintFrame is a followed call: inside the callee its parameters stand for the arguments.
+type c01TaintFrame struct {
+	call   *ssa.Call
+	callee *ssa.Function
+	parent *c01TaintFrame
+}
+
+// knownAt returns the truth value of boolean v known when `at` executes.
+func c01KnownAt(v ssa.Value, at ssa.Instruction) (bool, bool) {
+	if at == nil || at.Block() == nil {
+		return false, false
+	}
+	for _, want := range []bool{true, false} {
+		want := want
+		for _, r := range c01Facts(at, 0) {
+			if c01BoolFact(r, func(x ssa.Value) bool { return x == v }, want) {
+				return want, true
+			}
+		}
+	}
+	return false, false
+}
+
+func (t *c01Taint) tainted(v ssa.Value, at ssa.Instruction, depth int) bool {
+	return t.walk(v, at, depth, nil)
+}
+
+func (t *c01Taint) walk(v ssa.Value, at ssa.Instruction, depth int, fr *c01TaintFrame) bool {
+	if v == nil || depth <= 0 {
+		return false
+	}
+	k := c01TaintKey{v, at, fr}
+	if t.seen[k] {
+		return false
+	}
+	t.seen[k] = true
+	defer delete(t.seen, k)
+	if c01IsStrip(v) {
+		return true
+	}
+	returnsOf := func(h *ssa.Function) []*ssa.Return {
+		var out []*ssa.Return
+		for _, b := range h.Blocks {
+			if b == h.Recover || len(b.Instrs) == 0 {
+				continue
+			}
+			if r, ok := b.Instrs[len(b.Instrs)-1].(*ssa.Return); ok {
+				out = append(out, r)
+			}
+		}
+		return out
+	}
+	switch x := v.(type) {
+	case *ssa.Const, *ssa.Global, *ssa.Function, *ssa.MakeSlice, *ssa.MakeMap, *ssa.Builtin:
+		return false
+	case *ssa.Phi:
+		for i, e := range x.Edges {
+			var pat ssa.Instruction
+			if i < len(x.Block().Preds) {
+				p := x.Block().Preds[i]
+				pat = p.Instrs[len(p.Instrs)-1]
+			}
+			if t.walk(e, pat, depth-1, fr) {
+				return true
+			}
+		}
+		return false
+	case *ssa.Slice:
+		return t.walk(x.X, at, depth-1, fr)
+	case *ssa.MakeInterface:
+		return t.walk(x.X, at, depth-1, fr)
+	case *ssa.ChangeType:
+		return t.walk(x.X, at, depth-1, fr)
+	case *ssa.Convert:
+		return t.walk(x.X, at, depth-1, fr)
+	case *ssa.Index:
+		return t.walk(x.X, at, depth-1, fr)
+	case *ssa.IndexAddr:
+		return t.walk(x.X, at, depth-1, fr)
+	case *ssa.Alloc:
+		// a cell (named result, local, variadic array): whatever is stored into it
+		if x.Referrers() == nil {
+			return false
+		}
+		for _, r := range *x.Referrers() {
+			switch u := r.(type) {
+			case *ssa.Store:
+				if u.Addr == ssa.Value(x) && t.walk(u.Val, u, depth-1, fr) {
+					return true
+				}
+			case *ssa.IndexAddr:
+				if u.Referrers() == nil {
+					continue
+				}
+				for _, rr := range *u.Referrers() {
+					if st, ok := rr.(*ssa.Store); ok && st.Addr == ssa.Value(u) && t.walk(st.Val, st, depth-1, fr) {
+						return true
+					}
+				}
+			case *ssa.UnOp, *ssa.DebugRef, *ssa.Slice:
+			default:
+				if t.sl.DerivesFrom(v, c01IsStrip) {
+					return true
+				}
+			}
+		}
+		return false
+	case *ssa.UnOp:
+		if x.Op != token.MUL {
+			return t.walk(x.X, at, depth-1, fr)
+		}
+		switch a := x.X.(type) {
+		case *ssa.Alloc, *ssa.IndexAddr:
+			return t.walk(a, at, depth-1, fr)
+		}
+		return t.sl.DerivesFrom(v, c01IsStrip)
+	case *ssa.Parameter:
+		// inside a followed callee: the argument, in the caller's context
+		if fr != nil && x.Parent() == fr.callee {
+			if i := eng.ParamIndex(x); i >= 0 && i < len(fr.call.Call.Args) {
+				return t.walk(fr.call.Call.Args[i], fr.call, depth-1, fr.parent)
+			}
+			return false
+		}
+		if t.w == nil {
+			return false
+		}
+		for _, u := range t.w.UpArgSites(x) {
+			if t.walk(u.Arg, u.Site, depth-1, nil) {
+				return true
+			}
+		}
+		return false
+	case *ssa.Extract:
+		call, ok := x.Tuple.(*ssa.Call)
+		if !ok {
+			return t.sl.DerivesFrom(v, c01IsStrip)
+		}
+		h := call.Call.StaticCallee()
+		if h == nil || !eng.Analysable(h) {
+			return false
+		}
+		// the flags of the same call whose truth value is known at the point of use
+		known := map[int]bool{}
+		res := h.Signature.Results()
+		for j := 0; j < res.Len(); j++ {
+			if b, isB := res.At(j).Type().Underlying().(*types.Basic); !isB || b.Kind() != types.Bool {
+				continue
+			}
+			for _, ej := range eng.ExtractOf(call, j) {
+				if val, ok := c01KnownAt(ej, at); ok {
+					known[j] = val
+				}
+			}
+		}
+		for _, r := range returnsOf(h) {
+			rs := eng.ReturnResults(r)
+			if x.Index >= len(rs) {
+				continue
+			}
+			feasible := true
+			for j, val := range known {
+				if j < len(rs) && eng.IsBoolConst(rs[j], !val) {
+					feasible = false
+				}
+			}
+			if feasible && t.walk(rs[x.Index], r, depth-1, &c01TaintFrame{call, h, fr}) {
+				return true
+			}
+		}
+		return false
+	case *ssa.Call:
+		if isBuiltin(x, "append") && len(x.Call.Args) == 2 {
+			return t.walk(x.Call.Args[0], x, depth-1, fr) || t.walk(x.Call.Args[1], x, depth-1, fr)
+		}
+		h := x.Call.StaticCallee()
+		if h == nil || !eng.Analysable(h) {
+			return false
+		}
+		for _, r := range returnsOf(h) {
+			for _, rv := range eng.ReturnResults(r) {
+				if t.walk(rv, r, depth-1, &c01TaintFrame{x, h, fr}) {
+					return true
+				}
+			}
+		}
+		return false
+	}
+	return t.sl.DerivesFrom(v, c01IsStrip)
+}
+
 // isEntryCollection reports whether v is a slice of strings or of structs (rule entries),
 // as opposed to e.g. the request's group list.
 func isEntryCollection(v ssa.Value) bool {
@@ -1002,59 +1459,448 @@ func isEntryCollection(v ssa.Value) bool {
 
 // ---- R5 -------------------------------------------------------------------------------
 
-func c01R5(c *eng.Ctx) {
-	if ma := c.MustMethod(pkgClusters, "ClusterInfo", "MatchAttributes"); ma != nil {
-		found := false
-		isPolicy := func(v ssa.Value) bool {
-			cc, _ := eng.CallResultOf(v)
-			return cc != nil && eng.IsCall(cc, pkgClusters+".MatchPolicies")
-		}
-		eng.Instrs(ma, func(ins ssa.Instruction) {
-			r, ok := ins.(*ssa.Return)
-			if !ok || len(r.Results) != 2 {
-				return
-			}
-			if eng.GuardedByNil(r, isPolicy, true) {
-				found = true
-				okv := eng.IsNilConst(r.Results[0]) && c.Slicer().DerivesFrom(r.Results[1], func(v ssa.Value) bool {
-					g, isG := v.(*ssa.Global)
-					return isG && g.Name() == "ErrNoRouterRuleMatches"
-				})
-				c.Check("R5", ma, "no policy ⇒ ErrNoRouterRuleMatches", r.Pos(), okv, "when no policy matches, no picker is returned and the error is ErrNoRouterRuleMatches")
-			} else if !eng.IsNilConst(r.Results[0]) {
-				c.Check("R5", ma, "picker only for a matched policy", r.Pos(), eng.GuardedByNil(r, isPolicy, false), "a picker is returned only on the policy != nil edge")
-			}
-		})
-		if !found {
-			c.Fail("R5", ma, "no policy ⇒ ErrNoRouterRuleMatches", ma.Pos(), "no return on the policy == nil edge")
-		}
-	}
-	if sh := c.MustMethod(pkgDispatcher, "dispatcher", "ServeHTTP"); sh != nil {
-		mcs := eng.CallsTo(sh, "(*"+tClusterInfo+").MatchAttributes")
-		if len(mcs) != 1 {
-			c.Fail("R5", sh, "forwarding only after a match", sh.Pos(), fmt.Sprintf("expected one MatchAttributes call, found %d", len(mcs)))
+// c01Spread returns the functions the body of root may have been spread over inside root's own
+// package: root, its closures and (transitively, LiftDepth levels) the same-package functions
+// they call statically (plain call, go or defer). The callee of a call satisfying stopAt is not
+// entered (it is a construct the rule judges, not part of the body).
+func c01Spread(root *ssa.Function, stopAt func(ssa.CallInstruction) bool) []*ssa.Function {
+	samePkg := c01SamePkg(root)
+	seen := map[*ssa.Function]bool{}
+	var out []*ssa.Function
+	var visit func(f *ssa.Function, depth int)
+	visit = func(f *ssa.Function, depth int) {
+		if f == nil || seen[f] || f.Blocks == nil {
 			return
 		}
-		mc := mcs[0].(*ssa.Call)
-		isErr := func(v ssa.Value) bool {
-			cc, idx := eng.CallResultOf(v)
-			return cc == mc && idx == 1
+		seen[f] = true
+		out = append(out, f)
+		for _, a := range f.AnonFuncs {
+			visit(a, depth)
 		}
-		iface := fcIface(c)
-		n := 0
-		for _, ci := range eng.Calls(sh) {
-			forward := eng.IsCall(ci, "("+pkgClusters+".EndpointPicker).Pop", "(*"+pkgDispatcher+".UpgradeAwareHandler).ServeHTTP", "(net/http.Handler).ServeHTTP") ||
-				(iface != nil && isFCCall(ci, iface, "TryAcquire"))
-			if !forward {
+		if depth <= 0 {
+			return
+		}
+		for _, ci := range eng.Calls(f) {
+			if stopAt != nil && stopAt(ci) {
+				continue
+			}
+			if g := ci.Common().StaticCallee(); g != nil && samePkg(g) {
+				visit(g, depth-1)
+			}
+		}
+	}
+	visit(root, eng.LiftDepth)
+	return out
+}
+
+// c01VirtualReturns returns the return statements that produce fn's results: a return that
+// merely hands on the complete result tuple of a same-package helper (`return c.pick(…)`) is
+// replaced by the helper's own returns.
+func c01VirtualReturns(fn *ssa.Function, depth int) []*ssa.Return {
+	var out []*ssa.Return
+	samePkg := c01SamePkg(fn)
+	for _, b := range fn.Blocks {
+		if b == fn.Recover || len(b.Instrs) == 0 {
+			continue
+		}
+		r, ok := b.Instrs[len(b.Instrs)-1].(*ssa.Return)
+		if !ok {
+			continue
+		}
+		res := eng.ReturnResults(r)
+		var h *ssa.Function
+		if depth > 0 && len(res) > 0 {
+			var tuple *ssa.Call
+			whole := true
+			for i, v := range res {
+				cc, idx := eng.CallResultOf(v)
+				if cc == nil || (len(res) > 1 && idx != i) || (len(res) == 1 && idx != -1) || (tuple != nil && cc != tuple) {
+					whole = false
+					break
+				}
+				tuple = cc
+			}
+			if whole && tuple != nil && tuple.Block() == b {
+				if g := tuple.Call.StaticCallee(); g != nil && g != fn && samePkg(g) && g.Signature.Results().Len() == len(res) {
+					h = g
+				}
+			}
+		}
+		if h != nil {
+			out = append(out, c01VirtualReturns(h, depth-1)...)
+			continue
+		}
+		out = append(out, r)
+	}
+	return out
+}
+
+// c01ResultOf reports whether v is the result of one of the calls, possibly handed through
+// same-package helpers every return of which yields nil or such a result (then v != nil still
+// implies that the call's result is not nil, and v is nil whenever the call's result is).
+func c01ResultOf(v ssa.Value, calls map[*ssa.Call]bool, samePkg func(*ssa.Function) bool, depth int) bool {
+	cc, idx := eng.CallResultOf(v)
+	if cc == nil {
+		return false
+	}
+	if calls[cc] {
+		return true
+	}
+	h := cc.Call.StaticCallee()
+	if depth <= 0 || h == nil || !samePkg(h) {
+		return false
+	}
+	if idx < 0 {
+		idx = 0
+	}
+	n := 0
+	for _, b := range h.Blocks {
+		if b == h.Recover || len(b.Instrs) == 0 {
+			continue
+		}
+		r, ok := b.Instrs[len(b.Instrs)-1].(*ssa.Return)
+		if !ok {
+			continue
+		}
+		res := eng.ReturnResults(r)
+		if idx >= len(res) {
+			return false
+		}
+		if eng.IsNilConst(res[idx]) {
+			continue
+		}
+		if !c01ResultOf(res[idx], calls, samePkg, depth-1) {
+			return false
+		}
+		n++
+	}
+	return n > 0
+}
+
+func c01R5(c *eng.Ctx) {
+	if ma := c.MustMethod(pkgClusters, "ClusterInfo", "MatchAttributes"); ma != nil {
+		c01R5Match(c, ma)
+	}
+	if sh := c.MustMethod(pkgDispatcher, "dispatcher", "ServeHTTP"); sh != nil {
+		c01R5Dispatch(c, sh)
+	}
+}
+
+// c01R5Match: MatchAttributes answers (nil, ErrNoRouterRuleMatches) when MatchPolicies finds
+// nothing and hands out a picker only for a matched policy.
+func c01R5Match(c *eng.Ctx, ma *ssa.Function) {
+	samePkg := c01SamePkg(ma)
+	mps := map[*ssa.Call]bool{}
+	spread := c01Spread(ma, nil)
+	for _, f := range spread {
+		for _, ci := range eng.CallsTo(f, pkgClusters+".MatchPolicies") {
+			if cc, ok := ci.(*ssa.Call); ok {
+				mps[cc] = true
+			}
+		}
+	}
+	if len(mps) == 0 {
+		c.Fail("R5", ma, "no policy ⇒ ErrNoRouterRuleMatches", ma.Pos(), "MatchAttributes (with the same-package helpers it calls) does not call MatchPolicies")
+		return
+	}
+	isPolicy := func(v ssa.Value) bool { return c01ResultOf(v, mps, samePkg, eng.LiftDepth) }
+	isNoMatchErr := func(v ssa.Value) bool {
+		return c.Slicer().DerivesFrom(v, func(x ssa.Value) bool {
+			g, isG := x.(*ssa.Global)
+			return isG && g.Name() == "ErrNoRouterRuleMatches"
+		})
+	}
+	// forcing, the shape-independent proof: with MatchPolicies pinned to nil every path hands
+	// out no picker, and every path that consulted MatchPolicies answers ErrNoRouterRuleMatches
+	forcedDone, forcedOK := false, false
+	forced := func() bool {
+		if forcedDone {
+			return forcedOK
+		}
+		forcedDone = true
+		marker := eng.AV{K: eng.ConstV, C: constant.MakeString("ErrNoRouterRuleMatches")}
+		in := &eng.Interp{W: c.W, Depth: eng.LiftDepth, MaxPaths: 1 << 12, FollowCall: samePkg}
+		in.PinCall = func(cc *ssa.Call, idx int, st *eng.State) (eng.AV, bool) {
+			if mps[cc] {
+				return eng.AV{K: eng.NilV}, true
+			}
+			return eng.AV{}, false
+		}
+		in.PinPath = func(path string) (eng.AV, bool) {
+			if path == "global:ErrNoRouterRuleMatches" {
+				return marker, true
+			}
+			return eng.AV{}, false
+		}
+		paths, err := in.Run(ma, nil)
+		ok, consulted := err == nil && len(paths) > 0, false
+		for _, p := range paths {
+			if p.LoopCut || p.Panicked || len(p.Ret) != 2 || p.Ret[0].K != eng.NilV {
+				ok = false
+				continue
+			}
+			asked := false
+			for _, ci := range p.Calls {
+				if cc, isCall := ci.(*ssa.Call); isCall && mps[cc] {
+					asked = true
+				}
+			}
+			if asked {
+				consulted = true
+				if p.Ret[1].K != eng.ConstV || p.Ret[1].C.Kind() != constant.String || constant.StringVal(p.Ret[1].C) != "ErrNoRouterRuleMatches" {
+					ok = false
+				}
+			}
+		}
+		forcedOK = ok && consulted
+		return forcedOK
+	}
+	// the picker handed out is built from the policy MatchPolicies returned and from no other
+	// policy: with helpers between MatchPolicies and the picker (and with forcing, which only
+	// speaks about the no-match case) this is what keeps "the FIRST matching policy" — a helper
+	// that swaps the matched policy for another element of the list is a foreign source
+	policyT := c.W.Named(pkgV1alpha1, "DispatchPolicy")
+	isPolicyPtr := func(t types.Type) bool {
+		p, ok := t.Underlying().(*types.Pointer)
+		return ok && policyT != nil && types.Identical(p.Elem(), policyT)
+	}
+	psl := &eng.Slicer{W: c.W, Depth: eng.LiftDepth}
+	var foreign []string
+	nPickers := 0
+	for _, r := range c01VirtualReturns(ma, eng.LiftDepth) {
+		res := eng.ReturnResults(r)
+		if len(res) != 2 || eng.IsNilConst(res[0]) {
+			continue
+		}
+		nPickers++
+		psl.Walk(res[0], func(n eng.Node) bool {
+			if !isPolicyPtr(n.V.Type()) {
+				return true
+			}
+			if cc, _ := eng.CallResultOf(n.V); cc != nil && mps[cc] {
+				return false // the matched policy
+			}
+			switch x := n.V.(type) {
+			case *ssa.Const:
+				if x.IsNil() {
+					return false
+				}
+			case *ssa.Phi:
+				return true
+			case *ssa.Parameter, *ssa.Call, *ssa.Extract:
+				if !n.Leaf {
+					return true // bound to an argument / a followed helper: its sources are visited
+				}
+			case *ssa.UnOp:
+				if _, isCell := x.X.(*ssa.Alloc); isCell && x.Op == token.MUL {
+					return true // a local variable: the values stored into it are visited
+				}
+			case *ssa.Alloc:
+				if pt, isPtr := x.Type().Underlying().(*types.Pointer); isPtr && isPolicyPtr(pt.Elem()) {
+					return true // the cell of such a variable
+				}
+			}
+			file, line := c.W.Pos(n.V.Pos())
+			foreign = append(foreign, fmt.Sprintf("%s (%s:%d)", n.V.String(), file, line))
+			return false
+		})
+	}
+	c.Check("R5", ma, "picker is built from the policy MatchPolicies returned", ma.Pos(), nPickers > 0 && len(foreign) == 0,
+		"the request must be handled under the first matching policy: a picker built from another policy value routes it elsewhere; foreign policy sources: "+strings.Join(dedup(foreign), ", "))
+
+	found := false
+	for _, r := range c01VirtualReturns(ma, eng.LiftDepth) {
+		res := eng.ReturnResults(r)
+		if len(res) != 2 {
+			continue
+		}
+		if eng.HoldsAtX(r, func(rel eng.Rel) bool {
+			x, isNil, ok := eng.NilRel(rel)
+			return ok && isNil && isPolicy(x)
+		}) {
+			found = true
+			okv := eng.IsNilConst(res[0]) && isNoMatchErr(res[1])
+			c.Check("R5", ma, "no policy ⇒ ErrNoRouterRuleMatches", r.Pos(), okv || forced(), "when no policy matches, no picker is returned and the error is ErrNoRouterRuleMatches")
+		} else if !eng.IsNilConst(res[0]) {
+			guarded := eng.HoldsAtX(r, func(rel eng.Rel) bool {
+				x, isNil, ok := eng.NilRel(rel)
+				return ok && !isNil && isPolicy(x)
+			})
+			c.Check("R5", ma, "picker only for a matched policy", r.Pos(), guarded || forced(), "a picker is returned only on the policy != nil edge")
+		}
+	}
+	if !found {
+		c.Check("R5", ma, "no policy ⇒ ErrNoRouterRuleMatches", ma.Pos(), forced(), "no return on the policy == nil edge (and with MatchPolicies pinned to nil some path does not answer (nil, ErrNoRouterRuleMatches))")
+	}
+}
+
+// c01R5Dispatch: in the dispatcher, endpoint picking, flow-control acquisition and the proxy
+// handler run only where the error of MatchAttributes is known to be nil.
+func c01R5Dispatch(c *eng.Ctx, sh *ssa.Function) {
+	iface := fcIface(c)
+	isForward := func(ci ssa.CallInstruction) bool {
+		return eng.IsCall(ci, "("+pkgClusters+".EndpointPicker).Pop", "(*"+pkgDispatcher+".UpgradeAwareHandler).ServeHTTP", "(net/http.Handler).ServeHTTP") ||
+			(iface != nil && isFCCall(ci, iface, "TryAcquire"))
+	}
+	spread := c01Spread(sh, isForward)
+	mcs := map[*ssa.Call]bool{}
+	for _, f := range spread {
+		for _, ci := range eng.CallsTo(f, "(*"+tClusterInfo+").MatchAttributes") {
+			if cc, ok := ci.(*ssa.Call); ok {
+				mcs[cc] = true
+			}
+		}
+	}
+	if len(mcs) == 0 {
+		c.Fail("R5", sh, "forwarding only after a match", sh.Pos(), "ServeHTTP (with the same-package helpers it calls) does not call MatchAttributes")
+		return
+	}
+	isErr := func(v ssa.Value) bool {
+		cc, idx := eng.CallResultOf(v)
+		return cc != nil && mcs[cc] && idx == 1
+	}
+	// the error of MatchAttributes is nil: stated directly, through a named condition / predicate
+	// helper, or through a result of the helper the match was moved into
+	errNil := func(r eng.Rel) bool {
+		x, isNil, ok := eng.NilRel(r)
+		return ok && isNil && eng.NilImplies(x, isErr)
+	}
+	var forced *c01Forced
+	n := 0
+	for _, f := range spread {
+		for _, ci := range eng.Calls(f) {
+			if !isForward(ci) {
 				continue
 			}
 			n++
-			c.Check("R5", sh, "only after a match: "+shortName(eng.FullName(ci)), ci.Pos(), eng.GuardedByNil(ci, isErr, true), "reachable only on the err == nil edge of MatchAttributes")
-		}
-		if n < 3 {
-			c.Fail("R5", sh, "forwarding only after a match", sh.Pos(), "pick / acquire / proxy calls not found")
+			ok := eng.HoldsAtX(ci, errNil)
+			if !ok {
+				if forced == nil {
+					forced = c01ForceNoMatch(c, sh, spread, mcs, isForward)
+				}
+				ok = forced.never(ci)
+			}
+			c.Check("R5", sh, "only after a match: "+shortName(eng.FullName(ci)), ci.Pos(), ok, "reachable only on the err == nil edge of MatchAttributes")
 		}
 	}
+	if n < 3 {
+		c.Fail("R5", sh, "forwarding only after a match", sh.Pos(), "pick / acquire / proxy calls not found")
+	}
+}
+
+// c01Forced is the result of enumerating the paths of ServeHTTP with the error of
+// MatchAttributes pinned to non-nil.
+type c01Forced struct {
+	sound    bool                     // the enumeration covers every execution of the covered functions
+	covered  map[*ssa.Function]bool   // functions that run only through followed static calls
+	executed map[ssa.Instruction]bool // forward calls executed on some enumerated path
+}
+
+// never: the forward call cannot execute when MatchAttributes fails.
+func (f *c01Forced) never(ci ssa.CallInstruction) bool {
+	return f != nil && f.sound && f.covered[ci.Parent()] && !f.executed[ci]
+}
+
+// c01ForceNoMatch enumerates the paths of sh (following the same-package functions of spread)
+// with the error result of every MatchAttributes call pinned to non-nil (nothing else assumed),
+// and records which forward calls still execute. The result is only used as a proof when the
+// enumeration is complete: no loop cut, no path budget overrun, relevant helpers loop-free and
+// never started with go/defer, and the function holding a forward call runs only through
+// plain static calls that the interpreter follows.
+func c01ForceNoMatch(c *eng.Ctx, sh *ssa.Function, spread []*ssa.Function, mcs map[*ssa.Call]bool, isForward func(ssa.CallInstruction) bool) *c01Forced {
+	res := &c01Forced{sound: true, covered: map[*ssa.Function]bool{sh: true}, executed: map[ssa.Instruction]bool{}}
+	in := map[*ssa.Function]bool{}
+	for _, f := range spread {
+		in[f] = true
+	}
+	// relevant: holds (or statically reaches inside spread) a forward call or a MatchAttributes call
+	relevant := map[*ssa.Function]bool{}
+	for changed := true; changed; {
+		changed = false
+		for _, f := range spread {
+			if relevant[f] {
+				continue
+			}
+			for _, ci := range eng.Calls(f) {
+				cc, _ := ci.(*ssa.Call)
+				g := ci.Common().StaticCallee()
+				if isForward(ci) || (cc != nil && mcs[cc]) || (g != nil && relevant[g]) {
+					relevant[f] = true
+					changed = true
+					break
+				}
+			}
+			for _, a := range f.AnonFuncs {
+				if relevant[a] && !relevant[f] {
+					relevant[f] = true
+					changed = true
+				}
+			}
+		}
+	}
+	for _, f := range spread {
+		if f != sh && relevant[f] && eng.HasLoop(f) {
+			res.sound = false
+		}
+		for _, ci := range eng.Calls(f) {
+			if _, plain := ci.(*ssa.Call); plain {
+				continue
+			}
+			// go / defer of something relevant is not interpreted
+			g := ci.Common().StaticCallee()
+			if g == nil {
+				if mc, ok := ci.Common().Value.(*ssa.MakeClosure); ok {
+					g, _ = mc.Fn.(*ssa.Function)
+				}
+			}
+			if isForward(ci) || (g != nil && relevant[g]) {
+				res.sound = false
+			}
+		}
+	}
+	// covered: complete set of callers known, all of them plain calls in covered functions
+	for round := 0; round < eng.LiftDepth; round++ {
+		for _, f := range spread {
+			if res.covered[f] {
+				continue
+			}
+			sites := c.W.LiftSites(f)
+			ok := len(sites) > 0
+			for _, s := range sites {
+				if _, plain := s.(*ssa.Call); !plain || !res.covered[s.Parent()] {
+					ok = false
+				}
+			}
+			if ok {
+				res.covered[f] = true
+			}
+		}
+	}
+	it := &eng.Interp{W: c.W, Depth: eng.LiftDepth, MaxPaths: 1 << 14, FollowCall: func(g *ssa.Function) bool { return in[g] }}
+	it.PinCall = func(cc *ssa.Call, idx int, st *eng.State) (eng.AV, bool) {
+		if !mcs[cc] {
+			return eng.AV{}, false
+		}
+		if idx == 1 {
+			return eng.AV{K: eng.NonNilV}, true
+		}
+		return eng.AV{}, true // the picker stays unknown: nothing is assumed about it
+	}
+	paths, err := it.Run(sh, nil)
+	if err != nil || len(paths) == 0 {
+		res.sound = false
+	}
+	for _, p := range paths {
+		if p.LoopCut {
+			res.sound = false
+		}
+		for _, ci := range p.Calls {
+			if isForward(ci) {
+				res.executed[ci] = true
+			}
+		}
+	}
+	return res
 }
 
 // ---- R7 -------------------------------------------------------------------------------
@@ -1114,6 +1960,66 @@ func c01R7(c *eng.Ctx) {
 
 // ---- R8 -------------------------------------------------------------------------------
 
+// c01Facts returns the relations known to hold whenever ins executes, for rules about the
+// per-entry match functions: the deep facts of ins's own function, the facts at the creation
+// site of the function literal ins sits in (a literal only runs if it was created; the facts
+// concern parameters and single-assignment locals of the factory, which do not change), and —
+// where a condition is a captured hoisted invariant (`has := len(sub) > 0` computed outside
+// the literal) — what the invariant's definition implies.
+func c01Facts(ins ssa.Instruction, depth int) []eng.Rel {
+	if ins == nil || ins.Block() == nil {
+		return nil
+	}
+	var out []eng.Rel
+	for _, g := range eng.GuardsOf(ins) {
+		out = append(out, g.Rel())
+	}
+	out = append(out, eng.RelsAt(ins)...)
+	n := len(out)
+	for _, r := range out[:n] {
+		for _, want := range []bool{true, false} {
+			if (r.Op == token.EQL && eng.IsBoolConst(r.Y, want)) || (r.Op == token.NEQ && eng.IsBoolConst(r.Y, !want)) {
+				if def := eng.ResolveValue(r.X); def != r.X {
+					out = append(out, eng.ImpliedRels(def, want)...)
+				}
+			}
+		}
+	}
+	if depth > 0 && ins.Parent() != nil && ins.Parent().Parent() != nil {
+		if mc := eng.CreationSite(ins.Parent()); mc != nil {
+			out = append(out, c01Facts(mc, depth-1)...)
+		}
+	}
+	return out
+}
+
+// c01FactHolds: some relation that holds whenever ins executes satisfies pred (c01Facts, or a
+// fact lifted through the call sites of the extracted helper ins sits in).
+func c01FactHolds(ins ssa.Instruction, pred func(eng.Rel) bool) bool {
+	for _, r := range c01Facts(ins, eng.LiftDepth) {
+		if pred(r) {
+			return true
+		}
+	}
+	return eng.GuardedBy(ins, pred)
+}
+
+// c01SameValue: a and b denote the same value after resolving spills and hoisted invariants.
+func c01SameValue(a, b ssa.Value) bool {
+	if sameLoad(a, b) {
+		return true
+	}
+	ra, rb := eng.ResolveValue(a), eng.ResolveValue(b)
+	return ra == rb || sameLoad(ra, rb)
+}
+
+func c01BoolFact(r eng.Rel, match func(ssa.Value) bool, want bool) bool {
+	if r.Op == token.EQL && match(r.X) && eng.IsBoolConst(r.Y, want) {
+		return true
+	}
+	return r.Op == token.NEQ && match(r.X) && eng.IsBoolConst(r.Y, !want)
+}
+
 func c01R8(c *eng.Ctx) {
 	sa := &eng.Slicer{W: c.W, Depth: 0, Args: true}
 	// trailing-star glob reachable from a matcher root
@@ -1123,7 +2029,7 @@ func c01R8(c *eng.Ctx) {
 				a := eng.Args(ci)
 				// pattern side: TrimRight/TrimSuffix(entry, "*")
 				var entry ssa.Value
-				if tc, _ := eng.CallResultOf(a[1]); tc != nil && eng.IsCall(tc, "strings.TrimRight", "strings.TrimSuffix") {
+				if tc, _ := eng.CallResultOf(eng.ResolveValue(a[1])); tc != nil && eng.IsCall(tc, "strings.TrimRight", "strings.TrimSuffix") {
 					if k, ok := eng.StringConst(eng.Args(tc)[1]); ok && k == "*" {
 						entry = eng.Args(tc)[0]
 					}
@@ -1132,14 +2038,16 @@ func c01R8(c *eng.Ctx) {
 					continue
 				}
 				// guarded by HasSuffix(entry, "*") == true
-				g := eng.GuardedByBool(ci, func(v ssa.Value) bool {
-					hc, _ := eng.CallResultOf(v)
-					if hc == nil || !eng.IsCall(hc, "strings.HasSuffix") {
-						return false
-					}
-					k, ok := eng.StringConst(eng.Args(hc)[1])
-					return ok && k == "*" && sameLoad(eng.Args(hc)[0], entry)
-				}, true)
+				g := c01FactHolds(ci, func(r eng.Rel) bool {
+					return c01BoolFact(r, func(v ssa.Value) bool {
+						hc, _ := eng.CallResultOf(eng.ResolveValue(v))
+						if hc == nil || !eng.IsCall(hc, "strings.HasSuffix") {
+							return false
+						}
+						k, ok := eng.StringConst(eng.Args(hc)[1])
+						return ok && k == "*" && c01SameValue(eng.Args(hc)[0], entry)
+					}, true)
+				})
 				if g && request(a[0], f) {
 					return true, ci.Pos()
 				}
@@ -1177,7 +2085,8 @@ func c01R8(c *eng.Ctx) {
 					return
 				}
 				for _, side := range []ssa.Value{b.X, b.Y} {
-					add, isAdd := side.(*ssa.BinOp)
+					// "*/"+subresource, written in place or hoisted out of the match function
+					add, isAdd := eng.ResolveValue(side).(*ssa.BinOp)
 					if !isAdd || add.Op != token.ADD {
 						continue
 					}
@@ -1185,32 +2094,29 @@ func c01R8(c *eng.Ctx) {
 					if !isK || k != "*/" {
 						continue
 					}
-					other := b.X
-					if side == b.X {
-						other = b.Y
-					}
-					// guarded by HasPrefix(entry, "*/") and len(subresource) != 0
-					pref := eng.GuardedByBool(b, func(v ssa.Value) bool {
-						hc, _ := eng.CallResultOf(v)
-						if hc == nil || !eng.IsCall(hc, "strings.HasPrefix") {
-							return false
+					// only for a non-empty subresource (with an empty one the entry "*/" would match
+					// every plain resource request); that the entry starts with "*/" is implied by the
+					// equality itself, an explicit HasPrefix test is a short cut, not a condition
+					nonEmpty := c01FactHolds(b, func(r eng.Rel) bool {
+						r = eng.NormRel(r)
+						if e, isE := eng.StringConst(r.Y); isE && e == "" && r.Op == token.NEQ && c01SameValue(r.X, add.Y) {
+							return true // subresource != ""
 						}
-						kk, okk := eng.StringConst(eng.Args(hc)[1])
-						return okk && kk == "*/" && sameLoad(eng.Args(hc)[0], other)
-					}, true)
-					nonEmpty := eng.GuardedBy(b, func(r eng.Rel) bool {
 						lc, isC := r.X.(*ssa.Call)
 						z, isZ := eng.IntConst(r.Y)
-						return isC && isBuiltin(lc, "len") && sameLoad(lc.Call.Args[0], add.Y) && isZ && z == 0 && (r.Op == token.NEQ || r.Op == token.GTR)
+						if !isC || !isBuiltin(lc, "len") || !c01SameValue(lc.Call.Args[0], add.Y) || !isZ {
+							return false
+						}
+						return (z == 0 && (r.Op == token.NEQ || r.Op == token.GTR)) || (z == 1 && r.Op == token.GEQ)
 					})
-					if pref && nonEmpty {
+					if nonEmpty {
 						ok = true
 						pos = b.Pos()
 					}
 				}
 			})
 		}
-		c.Check("R8", f, "*/subresource", pos, ok, "an entry '*/sub' must match subresource sub of any resource: entry == \"*/\"+subresource, only for entries with the \"*/\" prefix and a non-empty subresource")
+		c.Check("R8", f, "*/subresource", pos, ok, "an entry '*/sub' must match subresource sub of any resource: entry == \"*/\"+subresource, only for a non-empty subresource")
 	}
 }
 
@@ -1237,6 +2143,26 @@ func goodFold(xs []string, r string) bool {
 func badFold(rev bool, xs []string, r string) bool {
 	for _, x := range xs { if neqIfRev(rev, x, r) { return true } }
 	return false
+}
+func goodFlagFold(xs []string, r string) bool {
+	found := false
+	for i := 0; i < len(xs) && !found; i++ { found = eq(xs[i], r) }
+	return found
+}
+func goodBreakFold(xs []string, r string) bool {
+	found := false
+	for _, x := range xs { if x == r { found = true; break } }
+	return found
+}
+func badFlagFold(rev bool, xs []string, r string) bool {
+	found := false
+	for i := 0; i < len(xs) && !found; i++ { found = neqIfRev(rev, xs[i], r) }
+	return found
+}
+func badBreakFold(xs []string, r string) bool {
+	found := false
+	for _, x := range xs { if x != r { found = true; break } }
+	return found
 }
 func strip(rs []string) (pos, inv []string) {
 	for _, r := range rs {
@@ -1269,6 +2195,9 @@ func c01Fixtures(c *eng.Ctx) {
 			for _, g := range fold.guards {
 				c01Atoms(c, g.If.Cond, g.Branch, 3, nil, map[ssa.Value]bool{}, &atoms)
 			}
+			for _, cd := range fold.conds {
+				c01Atoms(c, cd.v, cd.branch, 3, nil, map[ssa.Value]bool{}, &atoms)
+			}
 			for _, a := range atoms {
 				if !a.pos {
 					return true
@@ -1277,6 +2206,11 @@ func c01Fixtures(c *eng.Ctx) {
 		}
 		return false
 	}
+	nFolds := func(name string) string { return fmt.Sprint(len(c01Folds(p.Func(name)))) }
+	c.Fixture("C01.polarity/goodFlagFold", "1 false", nFolds("goodFlagFold")+" "+fmt.Sprint(neg("goodFlagFold")))
+	c.Fixture("C01.polarity/goodBreakFold", "1 false", nFolds("goodBreakFold")+" "+fmt.Sprint(neg("goodBreakFold")))
+	c.Fixture("C01.polarity/badFlagFold", "1 true", nFolds("badFlagFold")+" "+fmt.Sprint(neg("badFlagFold")))
+	c.Fixture("C01.polarity/badBreakFold", "1 true", nFolds("badBreakFold")+" "+fmt.Sprint(neg("badBreakFold")))
 	c.Fixture("C01.polarity/goodFold", "false", fmt.Sprint(neg("goodFold")))
 	c.Fixture("C01.polarity/badFold", "true", fmt.Sprint(neg("badFold")))
 	c.Fixture("C01.polarity/orFold", "true", fmt.Sprint(neg("orFold")))
